@@ -363,5 +363,8 @@ def write_replay(pid: str, payload: dict) -> Path:
 
 
 def write_evidence(pid: str, ev: dict):
-	EVIDENCE.mkdir(exist_ok=True)
-	(EVIDENCE / f'{pid}.json').write_text(json.dumps(ev, indent=1, default=str))
+	# evidence/ describes runs against /repo itself; a run pointed at another tree (GAMBIT_REPO, used to evaluate seeded changes in a
+	# scratch worktree) records what it did elsewhere
+	dest = EVIDENCE if str(REPO) == '/repo' else Path('/tmp') / 'verif_evidence_other_tree'
+	dest.mkdir(exist_ok=True)
+	(dest / f'{pid}.json').write_text(json.dumps(ev, indent=1, default=str))
